@@ -53,6 +53,27 @@ def run(ctx):
                            "the semver-compatible scan ranges over all socket imports" if whole and not adaptors else
                            "the semver-compatible scan is narrowed by %s before matching: a compatible import that is skipped (e.g. one already supplied) is neither plugged nor reported as a conflict" % (adaptors or "a different collection"),
                            site="%s in %s" % (c.span, par.id))
+    # every plug and every export of every plug is examined: the loops of plug() are left only when exhausted or with an error
+    for nx, kinds in loop_exit_kinds(f, cfg):
+        early = sorted(k for k in kinds if k not in ("Err", "residual"))
+        # exits that reach the code after the loop without an error are `break`s: find blocks of the body whose successor leaves it
+        sw = cfg.blocks[nx.target].term if nx.target is not None else None
+        some = [tg for v, tg in sw.j["targets"] if v == 1] if sw is not None and sw.k == "switch" else []
+        brk = []
+        if some:
+            region = cfg.reach_from(some[0], cut={nx.bb})
+            body = {x for x in region if cfg.reaches(x, nx.bb)}
+            errs = error_blocks(f)
+            leaks = [x for x in region - body if not cfg.diverges(x) and cfg.blocks[x].term.k != "unreachable" and any(p in body for p in cfg.pred[x])]
+            for x in leaks:
+                if x in errs:
+                    continue
+                if set(cfg.exits()) & cfg.reach_from(x, cut=errs):     # a normal return is reachable from here without an error
+                    brk.append(cfg.blocks[x].term.span)
+        ctx.ob("R10.2", "scan-complete@%s" % ordinal(f, nx), not brk,
+               "the loop is left only when its iterator is exhausted (or with an error)" if not brk else
+               "a loop of plug() can be left early without an error (%s): later exports of the plug / later plugs are never examined — a compatible export is not plugged, or a conflicting plug is not reported" % brk[0],
+               site="%s in %s" % (nx.span, f.id))
     ctx.ob("R10.1", "semver-sites", len(semver_calls) >= 1, "are_semver_compatible call sites in plug: %d" % len(semver_calls), nontrivial=False)
 
     # ---- R10.2 subtype filter, plug on the left, recorded on the Ok edge
